@@ -56,6 +56,15 @@ func (core *JApiCore) drainCurrentScanner() *jerr.JApiError {
 
 // simply decides which function to call based on lexeme type
 func (core *JApiCore) next(lexeme scanner.Lexeme) *jerr.JApiError {
+	switch lexeme.Type() { //nolint:exhaustive // Only lexemes which belongs to a directive.
+	case scanner.Parameter, scanner.Annotation, scanner.Schema, scanner.Text, scanner.Json, scanner.Enum,
+		scanner.ContextExplicitOpening:
+		if core.currentDirective == nil {
+			// I.e. an opening parenthesis after a closing one, or extra lexemes after the INCLUDE's filename.
+			return core.japiError("there is no directive to which the "+lexeme.Type().String()+" belongs", lexeme.Begin())
+		}
+	}
+
 	switch lexeme.Type() {
 	case scanner.Keyword:
 		return core.processKeyword(lexeme)
